@@ -3,7 +3,7 @@
    reports the first observation that differs: the crash points each operation passes, the files
    found after the crash, what commitlog.New recovers from them, and every later read-back.
    Completed operations are also cross-checked against the in-memory model (Log/Model.v). *)
-From LB Require Import Base.Prelude Log.Model Log.Retention Log.Compact Codec.Message Api.Range Log.Check Log.Disk.
+From LB Require Import Base.Prelude Log.Model Log.Retention Log.Compact Codec.Message Api.Range Log.Check Log.Disk Log.DiskTear.
 Open Scope Z_scope.
 
 Inductive fobs :=
@@ -15,7 +15,11 @@ Inductive dlop :=
 | XEpoch (e : N)
 | XCkpt
 | XCrash (intent : dop) (k : nat) (p : pname) (files : list fobs) (hwf : Z) (epf : list (N * Z))
-         (offs : list Z) (nw od hw : Z) (cache : list (N * Z)).
+         (offs : list Z) (nw od hw : Z) (cache : list (N * Z))
+(* the crash happened inside the append that precedes the k-th crash point: kk whole frames / entries
+   of it arrived, followed by z (Log.DiskTear.spot_of) *)
+| XTorn (intent : dop) (k : nat) (p : pname) (kk : nat) (z : option Z) (files : list fobs) (hwf : Z) (epf : list (N * Z))
+        (offs : list Z) (nw od hw : Z) (cache : list (N * Z)).
 
 Record dcase := { dc_p : params; dc_create_crash : bool; dc_ops : list dlop }.
 
@@ -104,6 +108,27 @@ Definition dstep (p : params) (s : st) (x : dlop) : option st * bool :=
          && list_eqb Z.eqb (map r_off (content r)) offs
          && (newest (to_log s') =? nw) && (oldest (to_log s') =? od) && (d_hw r =? hw)
          && list_eqb ep_eqb (d_ep r) cache)
+      end
+    end
+  | XTorn intent k pn kk z files hwf epf offs nw od hw cache =>
+    match kscript p s intent with
+    | None => (None, false)
+    | Some es =>
+      match upto_point k es with
+      | None => (None, false)
+      | Some pre =>
+        let n := (length pre - 2)%nat in
+        match torn_image key_of fixed p s intent n kk, crash_torn key_of fixed p s intent n kk z with
+        | Some (_, d), Some s' =>
+          let r := s_disk s' in
+          (Some s',
+           match rev pre with FPoint q :: _ => pname_eqb q pn | _ => false end
+           && same_files (files_of d) files && (d_hw d =? hwf) && list_eqb ep_eqb (d_ep d) epf
+           && list_eqb Z.eqb (map r_off (content r)) offs
+           && (newest (to_log s') =? nw) && (oldest (to_log s') =? od) && (d_hw r =? hw)
+           && list_eqb ep_eqb (d_ep r) cache)
+        | _, _ => (None, false)
+        end
       end
     end
   end.
